@@ -43,6 +43,13 @@ RULE = ('full cartesian products (A: every sparsity mask of every shape x every 
         'metadata; distinct by case (table spec, compress, writer)')
 
 DATE = datetime.datetime(2021, 3, 4, 5, 6, 7, 891011)
+# creation dates: with microseconds, on a whole second (isoformat drops the fraction), timezone-aware
+DATES = [DATE, datetime.datetime(2014, 6, 3), datetime.datetime(2014, 6, 3, 14, 24, 40),
+         datetime.datetime(2020, 2, 29, 23, 59, 59, 5, tzinfo=datetime.timezone(datetime.timedelta(hours=2)))]
+
+
+def date_of(case):
+    return DATES[case.get('date', 0)]
 PLACEHOLDER = 'No Table ID'          # the 2.1 specification's example value for an absent id
 GEN_DEFAULT = 'verif-harness'
 WRITERS = ['to_hdf5', 'to_hdf5_core', 'save_table']
@@ -100,6 +107,9 @@ def spine(tier, seed):
                                 samp_md=D.MD_KINDS[(k + seed) % nk], header=1, layout=lay))
             for hd, g in itertools.product(range(len(D.HEADERS)), range(len(GMD))):
                 out.append(dict(base, prod='B-hdr', header=hd, gmd=g, layout=lay))
+            if lay == 'csr':
+                for dt in range(1, len(DATES)):
+                    out.append(dict(base, prod='B-hdr', header=1, gmd=0, layout=lay, date=dt))
         if tier == 'thorough':
             for so, ss, mo, ms in itertools.product(D.ID_STYLES, D.ID_STYLES, D.MD_KINDS, D.MD_KINDS):
                 out.append(dict(base, prod='B-full', obs_style=so, samp_style=ss, obs_md=mo, samp_md=ms,
@@ -278,19 +288,19 @@ def write(t, case, gen, tmp, tag):
     path = os.path.join(tmp, name)
     if w == 'to_hdf5':
         with h5py.File(path, 'w') as fh:
-            t.to_hdf5(fh, gen, compress=comp, creation_date=DATE)
+            t.to_hdf5(fh, gen, compress=comp, creation_date=date_of(case))
         return Written(path=path)
     if w == 'to_hdf5_core':
         fh = h5py.File(name, 'w', driver='core', backing_store=False)
         try:
-            t.to_hdf5(fh, gen, compress=comp, creation_date=DATE)
+            t.to_hdf5(fh, gen, compress=comp, creation_date=date_of(case))
         except Exception:
             fh.close()
             raise
         return Written(handle=fh)
     if w == 'save_table':
         try:
-            save_table(t, path, generated_by=gen, compress=comp, creation_date=DATE)
+            save_table(t, path, generated_by=gen, compress=comp, creation_date=date_of(case))
         except Exception:
             if os.path.exists(path):
                 os.unlink(path)
@@ -374,12 +384,12 @@ def check(case, acc, tmp):
             ck = O.content_key(r)
             P.state(acc, 'read', ld, ck, r.table_id, r.generated_by)
             acc.outcomes.add(ck)
-            compare(r, src, gen, exp_id, ld, bad, acc)
+            compare(r, src, gen, exp_id, ld, bad, acc, date_of(case))
     finally:
         art.close()
 
 
-def compare(r, src, gen, exp_id, ld, bad, acc):
+def compare(r, src, gen, exp_id, ld, bad, acc, date=DATE):
     oids, sids = list(O.ids(r, 'observation')), list(O.ids(r, 'sample'))
     acc.count('clause:ids')
     if oids != src['obs_ids'] or sids != src['samp_ids']:
@@ -410,8 +420,8 @@ def compare(r, src, gen, exp_id, ld, bad, acc):
     if r.generated_by != gen:
         bad('read-generated_by:' + ld, '%s: generated_by %r, written %r' % (ld, r.generated_by, gen))
     acc.count('clause:creation_date')
-    if r.create_date != DATE:
-        bad('read-date:' + ld, '%s: create_date %r, written %r' % (ld, r.create_date, DATE))
+    if r.create_date != date:
+        bad('read-date:' + ld, '%s: create_date %r, written %r' % (ld, r.create_date, date))
     for axis, key in (('observation', 'obs_gmd'), ('sample', 'samp_gmd')):
         acc.count('clause:group-metadata')
         if src[key]:
